@@ -86,6 +86,27 @@ def mentions(node, names):
     return bool(lib.names_in(node) & names)
 
 
+def see_through_unpacking(fi, expr):
+    """Replace names bound by `a, b, ... = call(...)` (single binding) with `call(...)[i]`, locals of the call inlined."""
+    binds = {}
+    counts = {}
+    for n in walk_own(fi.node):
+        if isinstance(n, ast.Assign):
+            for t in n.targets:
+                for x in ast.walk(t):
+                    if isinstance(x, ast.Name):
+                        counts[x.id] = counts.get(x.id, 0) + 1
+            if len(n.targets) == 1 and isinstance(n.targets[0], (ast.Tuple, ast.List)) and isinstance(n.value, ast.Call):
+                for i, t in enumerate(n.targets[0].elts):
+                    if isinstance(t, ast.Name):
+                        binds[t.id] = (n.value, i)
+    env = {}
+    for name, (call, i) in binds.items():
+        if counts.get(name) == 1:
+            env[name] = ast.Subscript(value=lib.inline_locals(call, fi.node), slice=ast.Constant(value=i), ctx=ast.Load())
+    return nf.subst(expr, env) if env else expr
+
+
 def ret_paths(fi):
     return nf.decision_paths(fi.node.body)
 
@@ -113,6 +134,75 @@ def positive_guards(path):
 
 def student_facing(idx, module, cname):
     return lib.exc_is_subclass(idx, module, cname, 'StudentFacingError')
+
+
+def resolve_function(idx, fi, func_expr):
+    """The unique package function denoted by a callee / function-valued expression (self.m, Class.m, f), or None."""
+    fake = ast.Call(func=func_expr, args=[], keywords=[])
+    try:
+        targets, how = idx.resolve_call(fi, fake)
+    except Exception:
+        return None
+    fs = [t for t in targets if hasattr(t, 'node') and hasattr(t, 'qualname')]
+    if len(fs) == 1 and how in ('exact', 'cha', 'unique-name'):
+        return fs[0]
+    return None
+
+
+def bind_call(callee, call):
+    """param -> argument expression for a call of `callee` (self/cls skipped for bound calls); None when not bindable."""
+    a = callee.node.args
+    if a.vararg or a.kwarg or a.kwonlyargs or a.posonlyargs:
+        return None
+    names = [x.arg for x in a.args]
+    if callee.cls is not None and not callee.is_static and isinstance(call.func, ast.Attribute):
+        names = names[1:]
+    if len(call.args) > len(names) or any(isinstance(x, ast.Starred) for x in call.args):
+        return None
+    env = dict(zip(names, call.args))
+    for k in call.keywords:
+        if k.arg is None or k.arg not in names or k.arg in env:
+            return None
+        env[k.arg] = k.value
+    defaults = dict(zip([x.arg for x in a.args][len(a.args) - len(a.defaults):], a.defaults))
+    for n in names:
+        if n not in env:
+            if n not in defaults:
+                return None
+            env[n] = defaults[n]
+    return env
+
+
+def expr_cases(idx, fi, expr, depth=0):
+    """[(guards, value)] : the value of `expr` by cases, looking through conditional expressions and through calls of
+    side-effect-free package helpers (each of whose paths returns).  None when a helper cannot be looked through."""
+    if isinstance(expr, ast.IfExp):
+        out = []
+        t = nf.canon(expr.test)
+        for g, sub in ((t, expr.body), (nf.negate(t), expr.orelse)):
+            cs = expr_cases(idx, fi, sub, depth)
+            if cs is None:
+                return None
+            out += [([g] + gs, v) for gs, v in cs]
+        return out
+    if isinstance(expr, ast.Call) and depth < 3 and isinstance(expr.func, (ast.Attribute, ast.Name)):
+        callee = resolve_function(idx, fi, expr.func)
+        if callee is not None and callee.module.name.startswith('mitxgraders') and callee.qualname not in (NZ,):
+            env = bind_call(callee, expr)
+            if env is None:
+                return None
+            params = set(env)
+            paths = nf.decision_paths(callee.node.body, env={k: v for k, v in env.items()})
+            out = []
+            for p in paths:
+                if p.leaf.kind != 'ret' or p.effects:
+                    return None
+                cs = expr_cases(idx, callee, p.leaf.expr, depth + 1)
+                if cs is None:
+                    return None
+                out += [(list(p.guards) + gs, v) for gs, v in cs]
+            return out
+    return [([], expr)]
 
 
 ZERO_TESTS = ["_U.within_tolerance(0, np.linalg.norm(_S))", "_U.within_tolerance(0.0, np.linalg.norm(_S))",
@@ -367,9 +457,10 @@ def d1_span(ctx, idx):
             tol = lib.get_kw(e, 'tolerance', 1)
             ref = lib.get_kw(e, 'reference', 2)
             binds = {}
+            resid = see_through_unpacking(fi, e.args[0])
             res = nf.classify(['np.sqrt(np.linalg.lstsq(np.array(_P).transpose(), _S, rcond=__)[1])',
                                'np.sqrt(np.linalg.lstsq(np.array(_P).T, _S, rcond=__)[1])',
-                               'np.sqrt(np.linalg.lstsq(np.transpose(np.array(_P)), _S, rcond=__)[1])'], e.args[0], binds)
+                               'np.sqrt(np.linalg.lstsq(np.transpose(np.array(_P)), _S, rcond=__)[1])'], resid, binds)
             if res == nf.MATCH:
                 if is_name(binds['_P'], P) and is_name(binds['_S'], S):
                     r.ok(construct, 'sqrt of the least-squares residual of the student vector against the column vectors', where)
@@ -378,9 +469,9 @@ def d1_span(ctx, idx):
                                 'the given vectors' % (short(binds['_S']), short(binds['_P'])), where)
             elif isinstance(res, tuple):
                 r.violation(construct, '%s: the quantity tested is no longer the least-squares residual' % res[1], where,
-                            expected='np.sqrt(np.linalg.lstsq(vectors.T, student)[1])', found=short(e.args[0]))
+                            expected='np.sqrt(np.linalg.lstsq(vectors.T, student)[1])', found=short(resid))
             else:
-                r.undecided(construct, 'residual expression `%s` not recognised' % short(e.args[0]), where)
+                r.undecided(construct, 'residual expression `%s` not recognised' % short(resid), where)
             r.check(tol is not None and nf.match('_U.tolerance', tol) is not None and is_name(nf.match('_U.tolerance', tol)['_U'], U),
                     'vector_span_comparer: tolerance', 'utils.tolerance', 'the residual is tested against `%s` instead of the grader\'s '
                     'tolerance' % (short(tol) if tol is not None else 'nothing'), where, expected='%s.tolerance' % U)
@@ -703,44 +794,64 @@ def d1_linear(ctx, idx):
                 continue
             key = lib.get_kw(e, 'key')
             kb = None
+            kan = kbody = None
             if isinstance(key, ast.Lambda) and len(key.args.args) == 1:
-                an = key.args.args[0].arg
-                first = key.body.elts[0] if isinstance(key.body, ast.Tuple) and key.body.elts else key.body
-                if isinstance(first, ast.Subscript) and is_name(first.value, an) and nf.const_value(first.slice) == 'grade_decimal':
+                kan, kbody = key.args.args[0].arg, key.body
+            elif key is not None and isinstance(key, (ast.Attribute, ast.Name)):
+                kf = resolve_function(idx, call, key)
+                if kf is not None:
+                    kparams = kf.params[1:] if (kf.cls is not None and not kf.is_static) else kf.params
+                    kpaths = nf.decision_paths(kf.node.body)
+                    if len(kparams) == 1 and len(kpaths) == 1 and kpaths[0].leaf.kind == 'ret' and not kpaths[0].effects:
+                        kan, kbody = kparams[0], kpaths[0].leaf.expr
+            if kbody is not None:
+                first = kbody.elts[0] if isinstance(kbody, ast.Tuple) and kbody.elts else kbody
+                if isinstance(first, ast.Subscript) and is_name(first.value, kan) and nf.const_value(first.slice) == 'grade_decimal':
                     kb = True
-            r.check(kb is not None, 'LinearComparer.__call__: selection', 'max by (grade_decimal, msg)',
-                    'the best result is selected with key `%s`, not by credit' % (short(key) if key is not None else 'none'), where,
-                    expected="key=lambda result: (result['grade_decimal'], result['msg'])")
+            elif key is not None:
+                r.undecided('LinearComparer.__call__: selection', 'key function `%s` cannot be looked through' % short(key), where)
+                kb = 'skip'
+            if kb != 'skip':
+              r.check(kb is not None, 'LinearComparer.__call__: selection', 'max by (grade_decimal, msg)',
+                      'the best result is selected with key `%s`, not by credit' % (short(key) if key is not None else 'none'), where,
+                      expected="key=lambda result: (result['grade_decimal'], result['msg'])")
             comp = e.args[0]
-            if not isinstance(comp, (ast.ListComp, ast.GeneratorExp)) or not isinstance(comp.elt, ast.IfExp):
+            if not isinstance(comp, (ast.ListComp, ast.GeneratorExp)):
                 r.undecided('LinearComparer.__call__: credit rule', 'results `%s` not recognised' % short(comp, 80), where)
                 continue
-            ife = comp.elt
-            tb = nf.match('is_nearly_zero(_ERR, _U.tolerance, reference=__)', ife.test)
-            neg = False
-            if tb is None and isinstance(ife.test, ast.UnaryOp) and isinstance(ife.test.op, ast.Not):
-                tb = nf.match('is_nearly_zero(_ERR, _U.tolerance, reference=__)', ife.test.operand)
-                neg = True
-            if tb is None:
-                r.undecided('LinearComparer.__call__: credit rule', 'test `%s` not recognised' % short(ife.test, 80), where)
+            cases = expr_cases(idx, call, comp.elt)
+            if cases is None or len(cases) < 2:
+                r.undecided('LinearComparer.__call__: credit rule', 'result element `%s` cannot be split into cases' % short(comp.elt, 80), where)
                 continue
-            win, lose = (ife.orelse, ife.body) if neg else (ife.body, ife.orelse)
-            dw, dl = dict_items(win), dict_items(lose)
-            if dw is None or dl is None:
-                r.undecided('LinearComparer.__call__: credit rule', 'result literals not recognised', where)
-                continue
-            gw, gl = dw.get('grade_decimal'), dl.get('grade_decimal')
-            cfg_credit = lambda g: g is not None and isinstance(g, ast.Subscript) and isinstance(g.value, ast.Attribute) and g.value.attr == 'config'
-            zero = lambda g: isinstance(g, ast.Constant) and g.value == 0
-            if cfg_credit(gw) and zero(gl):
-                r.ok('LinearComparer.__call__: credit rule', 'configured credit iff the fit error is nearly zero', where)
-            elif cfg_credit(gl) and zero(gw):
-                r.violation('LinearComparer.__call__: credit rule', 'the credit rule is inverted: a relation earns its credit when its fit error '
-                            'is NOT nearly zero', where, expected='credit if is_nearly_zero(error, ...) else 0')
+            NZP = 'is_nearly_zero(_ERR, _U.tolerance, reference=__)'
+            verdicts = []
+            for guards, val in cases:
+                holds = None
+                for g in guards:
+                    if nf.match(NZP, g) is not None:
+                        holds = True
+                    elif isinstance(g, ast.UnaryOp) and isinstance(g.op, ast.Not) and nf.match(NZP, g.operand) is not None:
+                        holds = False
+                d = dict_items(val)
+                if holds is None or d is None or len(guards) != 1:
+                    verdicts = None
+                    break
+                gd = d.get('grade_decimal')
+                is_cfg = gd is not None and isinstance(gd, ast.Subscript) and isinstance(gd.value, ast.Attribute) and gd.value.attr == 'config'
+                is_zero = isinstance(gd, ast.Constant) and gd.value == 0
+                verdicts.append((holds, 'cfg' if is_cfg else ('zero' if is_zero else short(gd) if gd is not None else '?')))
+            if verdicts is None:
+                r.undecided('LinearComparer.__call__: credit rule', 'cases of `%s` not recognised' % short(comp.elt, 80), where)
             else:
-                r.violation('LinearComparer.__call__: credit rule', 'credit `%s` when the relation holds, `%s` otherwise' %
-                            (short(gw) if gw is not None else '?', short(gl) if gl is not None else '?'), where,
-                            expected='self.config[mode] / 0')
+                got = dict(verdicts)
+                if got.get(True) == 'cfg' and got.get(False) == 'zero':
+                    r.ok('LinearComparer.__call__: credit rule', 'configured credit iff the fit error is nearly zero', where)
+                elif got.get(True) == 'zero' and got.get(False) == 'cfg':
+                    r.violation('LinearComparer.__call__: credit rule', 'the credit rule is inverted: a relation earns its credit when its fit error '
+                                'is NOT nearly zero', where, expected='credit if is_nearly_zero(error, ...) else 0')
+                else:
+                    r.violation('LinearComparer.__call__: credit rule', 'credit `%s` when the relation holds, `%s` otherwise' %
+                                (got.get(True), got.get(False)), where, expected='self.config[mode] / 0')
             # ROLE: the documented relations are expected = a*student (+ b): every estimator is called as (student samples, expected samples)
             ecalls = [c for c in ast.walk(comp) if isinstance(c, ast.Call) and isinstance(c.func, ast.Subscript)
                       and isinstance(c.func.value, ast.Attribute) and c.func.value.attr == 'error_calculators']
@@ -979,17 +1090,71 @@ def switch_key(g):
     return None
 
 
-def eval_guard(g, env):
+def resolve_classes(idx, module, expr, depth=0):
+    """Qualified class names denoted by an except-clause / isinstance class expression (follows aliases and module tuples)."""
+    if depth > 4:
+        raise AnalysisError('class expression `%s` nests too deeply' % short(expr))
+    if isinstance(expr, (ast.Tuple, ast.List)):
+        out = []
+        for e in expr.elts:
+            out += resolve_classes(idx, module, e, depth + 1)
+        return out
+    if isinstance(expr, (ast.Name, ast.Attribute)):
+        name = unparse(expr).split('.')[-1]
+        kind, obj = idx.resolve_name(module, name)
+        if kind == 'class':
+            return [obj.qualname]
+        if kind == 'value':
+            mod, nm = obj
+            vals = mod.assigns.get(nm, [])
+            if len(vals) == 1:
+                return resolve_classes(idx, mod, vals[0], depth + 1)
+        if kind == 'builtin':
+            return [name]
+    raise AnalysisError('class expression `%s` cannot be resolved' % short(expr))
+
+
+def exc_mro(idx, q):
+    ci = idx.classes.get(q)
+    if ci is None:
+        return [q]
+    out = list(ci.mro)
+    tail = out[-1].split('.')[-1]
+    cur = lib.BUILTIN_EXC_PARENTS.get(tail)
+    out[-1] = tail
+    while cur:
+        out.append(cur)
+        cur = lib.BUILTIN_EXC_PARENTS.get(cur)
+    return out
+
+
+def eval_guard(g, env, ctxinfo=None):
+    """Truth of a canonical guard under an assignment of the policy switches and a concrete exception class."""
     if isinstance(g, ast.UnaryOp) and isinstance(g.op, ast.Not):
-        v = eval_guard(g.operand, env)
+        v = eval_guard(g.operand, env, ctxinfo)
         return None if v is None else (not v)
     if isinstance(g, ast.BoolOp):
-        vals = [eval_guard(v, env) for v in g.values]
-        if any(v is None for v in vals):
-            return None
-        return all(vals) if isinstance(g.op, ast.And) else any(vals)
+        vals = [eval_guard(v, env, ctxinfo) for v in g.values]
+        if isinstance(g.op, ast.And):
+            if any(v is False for v in vals):
+                return False
+            return None if any(v is None for v in vals) else True
+        if any(v is True for v in vals):
+            return True
+        return None if any(v is None for v in vals) else False
     if isinstance(g, ast.Constant) and isinstance(g.value, bool):
         return g.value
+    if isinstance(g, ast.Compare) and len(g.ops) == 1 and isinstance(g.ops[0], (ast.Is, ast.IsNot, ast.Eq, ast.NotEq)) \
+            and isinstance(g.comparators[0], ast.Constant) and isinstance(g.comparators[0].value, bool):
+        v = eval_guard(g.left, env, ctxinfo)
+        if v is None:
+            return None
+        same = v == g.comparators[0].value
+        return same if isinstance(g.ops[0], (ast.Is, ast.Eq)) else not same
+    if ctxinfo is not None and isinstance(g, ast.Call) and isinstance(g.func, ast.Name) and g.func.id == 'isinstance' \
+            and len(g.args) == 2 and is_name(g.args[0], ctxinfo['err']):
+        classes = resolve_classes(ctxinfo['idx'], ctxinfo['module'], g.args[1])
+        return any(c in ctxinfo['mro'] or c.split('.')[-1] in ctxinfo['mro'] for c in classes)
     k = switch_key(g)
     if k is not None and k in env:
         return env[k]
@@ -1015,104 +1180,97 @@ def leaf_kind(leaf, errname):
 
 
 def d3_policy(ctx, idx):
-    r = ctx.rule('D3.POLICY', 'MatrixGrader.check_response: handler order and the mismatch-policy truth table', floor=13)
+    r = ctx.rule('D3.POLICY', 'MatrixGrader.check_response realises the mismatch-policy truth table for every matrix error class', floor=13)
     with r:
         fi = idx.func(MGQ + '.check_response')
         trs = lib.stmts_in(fi.node, ast.Try)
         if len(trs) != 1:
             raise AnalysisError('MatrixGrader.check_response: expected one try')
         tr = trs[0]
-        sup = [c for c in lib.calls_named(fi.node, 'check_response') if isinstance(c.func, ast.Attribute)]
-        if not sup or not all(lib.enclosing_try(c) is tr or tr in lib.enclosing_trys(c) for c in sup):
-            r.violation('MatrixGrader.check_response: guarded evaluation', 'the parent check_response is not called inside the try: shape '
-                        'errors bypass the mismatch policy', fi.loc)
+        sup = [c for c in lib.calls_named(fi.node, 'check_response') if isinstance(c.func, ast.Attribute)
+               and isinstance(c.func.value, ast.Call) and nf.callee_name(c.func.value) == 'super']
+        if not sup:
+            raise AnalysisError('MatrixGrader.check_response: no super().check_response call')
+        inside = all(tr in lib.enclosing_trys(c) for c in sup)
+        r.check(inside, 'MatrixGrader.check_response: guarded evaluation', 'the parent check_response runs inside the try',
+                'the parent check_response is called outside the try: shape errors bypass the mismatch policy', lib.loc(fi, sup[0]))
         SHAPE = 'mitxgraders.helpers.calc.exceptions.MathArrayShapeError'
         ITE = 'mitxgraders.exceptions.InputTypeError'
         MAE = 'mitxgraders.helpers.calc.exceptions.MathArrayError'
         ASE = 'mitxgraders.helpers.calc.exceptions.ArgumentShapeError'
+        for q in (SHAPE, ITE, MAE, ASE):
+            idx.cls(q)
         handlers = []
         for h in tr.handlers:
-            classes = [_alias(idx, fi.module, n) for n in lib.handler_class_names(h)]
-            handlers.append((h, classes))
-        # order: no handler shadowed by an earlier one
-        shadow = False
-        for i, (h, cl) in enumerate(handlers):
-            for j in range(i):
-                for a in handlers[j][1]:
-                    for b in cl:
-                        ca = idx.classes.get(a)
-                        cb = idx.classes.get(b)
-                        if cb is not None and a in cb.mro and a != b:
-                            shadow = True
-                            r.violation('MatrixGrader.check_response: handler order', 'the handler for %s can never run: the earlier handler '
-                                        'for %s catches it first, so %s follows the wrong policy switch' % (b.split('.')[-1], a.split('.')[-1],
-                                                                                                          b.split('.')[-1]), lib.loc(fi, h))
-        if not shadow:
-            r.ok('MatrixGrader.check_response: handler order', 'no handler is shadowed: %s' % [[c.split('.')[-1] for c in cl] for _, cl in handlers],
-                 lib.loc(fi, tr))
+            if h.type is None:
+                classes = ['BaseException']
+            else:
+                classes = resolve_classes(idx, fi.module, h.type)
+            handlers.append((h, classes, nf.decision_paths(h.body)))
+        ALL = ['suppress_matrix_messages', 'shape_errors', 'answer_shape_mismatch.is_raised']
+        text = {'zero-silent': 'graded wrong without a message', 'raise': 'the error is raised to the student',
+                'zero-message': 'graded wrong with the error text as message', 'fall': 'the handler falls through (no result)',
+                'ret-other': 'a result that is not a zero result is returned', 'zero-othermsg': 'graded wrong with another message'}
         table = [(SHAPE, 'shape_errors', 'shape errors of the evaluation (MathArrayShapeError)'),
                  (ITE, 'answer_shape_mismatch.is_raised', 'answer shape mismatch (InputTypeError)'),
                  (MAE, None, 'other array errors (MathArrayError)'), (ASE, None, 'function argument shape errors (ArgumentShapeError)')]
         for cls, switch, what in table:
-            hs = [(h, cl) for h, cl in handlers if cls in cl]
-            if not hs:
-                # caught by a superclass handler? then that handler's policy applies
-                sup_h = [(h, cl) for h, cl in handlers if any(c in (idx.classes[cls].mro if cls in idx.classes else []) for c in cl)]
-                if switch is not None:
-                    r.violation('MatrixGrader.check_response: %s' % what, 'no handler of its own: the %s switch no longer decides between '
-                                'raising and grading the answer wrong' % switch, lib.loc(fi, tr), expected='except %s' % cls.split('.')[-1])
-                elif not sup_h:
-                    r.violation('MatrixGrader.check_response: %s' % what, 'not handled: suppress_matrix_messages no longer silences it',
-                                lib.loc(fi, tr))
-                else:
-                    hs = sup_h[:1]
-            if not hs:
-                continue
-            h, cl = hs[0]
-            paths = nf.decision_paths(h.body)
-            ALL = ['suppress_matrix_messages', 'shape_errors', 'answer_shape_mismatch.is_raised']
-            text = {'zero-silent': 'graded wrong without a message', 'raise': 'the error is re-raised to the student',
-                    'zero-message': 'graded wrong with the error text as message', 'fall': 'the handler falls through (no result)',
-                    'ret-other': 'a result that is not a zero result is returned', 'zero-othermsg': 'graded wrong with another message'}
+            mro = exc_mro(idx, cls)
+            # Python's dispatch: the first clause one of whose classes is in the MRO of the raised class
+            hit = None
+            for h, classes, paths in handlers:
+                if any(c in mro or c.split('.')[-1] in mro for c in classes):
+                    hit = (h, classes, paths)
+                    break
             for s_ in (True, False):
                 for pol in ((True, False) if switch else (None,)):
                     setting = 'suppress_matrix_messages=%s%s' % (s_, ', %s=%s' % (switch, pol) if switch else '')
                     construct = 'MatrixGrader.check_response: %s [%s]' % (what, setting)
                     want = 'zero-silent' if s_ else ('raise' if (pol or switch is None) else 'zero-message')
                     others = [k for k in ALL[1:] if k != switch]
-                    verdict = None      # ('ok', where) | ('bad', got, where, extra) | ('und',)
-                    for vals_o in [(x, y) for x in (True, False) for y in (True, False)][:2 ** len(others)] if others else [()]:
+                    verdict = None
+                    combos = [()]
+                    for _ in others:
+                        combos = [c + (v,) for c in combos for v in (True, False)]
+                    for vals_o in combos:
                         env = {'suppress_matrix_messages': s_}
                         if switch:
                             env[switch] = pol
                         env.update(dict(zip(others, vals_o)))
-                        taken = []
-                        for p in paths:
-                            vals = [eval_guard(g, env) for g in p.guards]
-                            if any(v is None for v in vals):
-                                taken = None
-                                break
-                            if all(vals):
+                        extra = ' (with %s)' % ', '.join('%s=%s' % kv for kv in zip(others, vals_o)) if others else ''
+                        if hit is None:
+                            got, where, via = 'raise', lib.loc(fi, tr), 'no except clause catches it, so it propagates'
+                        else:
+                            h, classes, paths = hit
+                            info = {'err': h.name, 'idx': idx, 'module': fi.module, 'mro': mro}
+                            taken = []
+                            unknown = False
+                            for p in paths:
+                                vals = [eval_guard(g, env, info) for g in p.guards]
+                                if any(v is False for v in vals):
+                                    continue
+                                if any(v is None for v in vals):
+                                    unknown = True
+                                    break
                                 taken.append(p)
-                        if taken is None or len(taken) != 1:
-                            verdict = ('und',)
-                            break
-                        got = leaf_kind(taken[0].leaf, h.name)
-                        where = lib.loc(fi, taken[0].leaf.stmt or h)
+                            if unknown or len(taken) != 1:
+                                verdict = ('und', lib.loc(fi, h))
+                                break
+                            got = leaf_kind(taken[0].leaf, h.name)
+                            where = lib.loc(fi, taken[0].leaf.stmt or h)
+                            via = 'handled by `except %s`' % short(h.type) if h.type is not None else 'handled by the bare except'
                         if got != want:
-                            extra = ''
-                            if others:
-                                extra = ' (with %s)' % ', '.join('%s=%s' % kv for kv in zip(others, vals_o))
-                            verdict = ('bad', got, where, extra)
+                            verdict = ('bad', got, where, extra, via)
                             break
                         verdict = verdict or ('ok', where)
                     if verdict[0] == 'und':
-                        r.undecided(construct, 'handler guards are not a function of the policy switches', lib.loc(fi, h))
+                        r.undecided(construct, 'the handler\'s guards are not a function of the policy switches and the error class', verdict[1])
                     elif verdict[0] == 'ok':
                         r.ok(construct, text[want], verdict[1])
                     else:
-                        _, got, where, extra = verdict
-                        r.violation(construct, 'with %s%s: expected "%s" but %s' % (setting, extra, text[want], text.get(got, got)), where,
+                        _, got, where, extra, via = verdict
+                        r.violation(construct, 'a %s raised while grading, with %s%s, is %s: expected "%s" but %s'
+                                    % (cls.split('.')[-1], setting, extra, via, text[want], text.get(got, got)), where,
                                     expected=text[want], found=text.get(got, got))
 
 
@@ -1172,38 +1330,88 @@ def d3_shape_validation(ctx, idx):
                     'the shape compared with the expected one is `%s`, not the submission\'s' % ', '.join(short(v) for v in vals), fi.loc)
         else:
             raise AnalysisError('validate_student_input_shape: compared shape is not a local')
-        # EqualityComparer.validate
+        # EqualityComparer.validate: on every path where utils offers validate_shape, the student is validated against the
+        # shape of the expected value (() for numbers)
         ev = idx.func(C + 'EqualityComparer.validate')
         E, S, U = ev.params[0], ev.params[1], ev.params[2]
-        calls = [c for c in lib.calls_named(ev.node, 'validate_shape') if isinstance(c.func, ast.Attribute) and is_name(c.func.value, U)]
-        if not calls:
-            r.violation('EqualityComparer.validate', 'utils.validate_shape is never called: MatrixGrader answers are compared without a shape check',
-                        ev.loc)
-        else:
-            c = calls[0]
-            test = None
-            for a in ancestors(c):
-                if isinstance(a, ast.If):
-                    test = a
-                    break
-            tok = test is not None and nf.match("hasattr(_U, 'validate_shape')", nf.canon(test.test)) is not None \
-                and any(c is x for s in test.body for x in ast.walk(s))
-            shape = lib.inline_locals(c.args[1], ev.node) if len(c.args) == 2 else None
-            sb = None
-            if shape is not None:
-                sb = nf.match('tuple() if isinstance(_E, Number) else _E.shape', shape) or nf.match('() if isinstance(_E, Number) else _E.shape', shape) \
-                    or nf.match('_E.shape if not isinstance(_E, Number) else tuple()', shape)
-            good = tok and len(c.args) == 2 and is_name(c.args[0], S) and sb is not None and is_name(sb['_E'], E)
-            if good:
-                r.ok('EqualityComparer.validate', 'validate_shape(student, shape of expected) whenever utils offers it', lib.loc(ev, c))
-            elif len(c.args) == 2 and is_name(c.args[0], E):
-                r.violation('EqualityComparer.validate', 'the expected value is validated against its own shape (`%s`): the submission\'s shape is '
-                            'never checked' % short(c), lib.loc(ev, c), expected='utils.validate_shape(%s, shape)' % S)
-            elif not tok and test is not None:
-                r.violation('EqualityComparer.validate', 'the validation runs under `%s`, not whenever utils offers validate_shape' % short(test.test),
-                            lib.loc(ev, c))
+        construct = 'EqualityComparer.validate'
+        any_call = [c for c in walk_all(ev.node) if isinstance(c, ast.Call) and nf.callee_name(c) == 'validate_shape']
+        if not any_call:
+            if getattr(idx, 'unreviewed', None):
+                r.undecided(construct, 'no validate_shape call here and unreviewed helpers exist: %s' % list(idx.unreviewed), ev.loc)
             else:
-                r.undecided('EqualityComparer.validate', 'call `%s` not recognised' % short(c), lib.loc(ev, c))
+                r.violation(construct, 'utils.validate_shape is never called: MatrixGrader answers are compared without a shape check', ev.loc)
+        else:
+            verdict = None      # ('ok',) | ('bad', text, node) | ('und', text)
+            HAS = "hasattr(_U, 'validate_shape')"
+            n_checked = 0
+            for p in nf.decision_paths(ev.node.body):
+                has = None
+                isnum = None
+                for g in p.guards:
+                    neg = isinstance(g, ast.UnaryOp) and isinstance(g.op, ast.Not)
+                    core = g.operand if neg else g
+                    b_ = nf.match(HAS, core)
+                    if b_ is not None and is_name(b_['_U'], U):
+                        has = not neg
+                    b_ = nf.match('isinstance(_E, Number)', core)
+                    if b_ is not None and is_name(b_['_E'], E):
+                        isnum = not neg
+                calls = [c for e in p.effects for c in ast.walk(e) if isinstance(c, ast.Call) and nf.callee_name(c) == 'validate_shape'
+                         and isinstance(c.func, ast.Attribute) and is_name(c.func.value, U)]
+                if p.leaf.kind == 'raise':
+                    continue
+                if has is None:
+                    if calls:
+                        has = True      # unconditional call: fine for MatrixGrader, raises AttributeError for FormulaGrader utils
+                        verdict = verdict or ('und', 'validate_shape is called without testing that utils offers it')
+                        continue
+                    verdict = ('und', 'a path does not test hasattr(utils, \'validate_shape\')')
+                    continue
+                if has is False:
+                    if calls:
+                        verdict = ('bad', 'the validation runs only when utils does NOT offer validate_shape', calls[0])
+                    continue
+                if not calls:
+                    verdict = ('bad', 'on a path where utils offers validate_shape the submission is not validated (guards: %s)'
+                               % ' and '.join(unparse(g) for g in p.guards), None)
+                    continue
+                c = calls[0]
+                n_checked += 1
+                if len(c.args) != 2:
+                    verdict = ('und', 'call `%s` not recognised' % short(c))
+                    continue
+                if is_name(c.args[0], E) and not is_name(c.args[0], S):
+                    verdict = ('bad', 'the expected value is validated against its own shape (`%s`): the submission\'s shape is never '
+                               'checked' % short(c), c)
+                    continue
+                if not is_name(c.args[0], S):
+                    verdict = verdict or ('und', 'first argument of `%s` is not the submission' % short(c))
+                    continue
+                shp = c.args[1]
+                empty = nf.match('tuple()', shp) is not None or (isinstance(shp, ast.Tuple) and not shp.elts)
+                eshape = nf.match('_E.shape', shp)
+                eshape = eshape is not None and is_name(eshape['_E'], E)
+                cond = nf.match('tuple() if isinstance(_E, Number) else _E.shape', shp) or nf.match('() if isinstance(_E, Number) else _E.shape', shp) \
+                    or nf.match('_E.shape if not isinstance(_E, Number) else tuple()', shp)
+                if isnum is None and cond is not None and is_name(cond['_E'], E):
+                    pass
+                elif isnum is True and empty:
+                    pass
+                elif isnum is False and eshape:
+                    pass
+                elif (isnum is True and eshape) or (isnum is False and empty):
+                    verdict = ('bad', 'the shape passed for a %s expected value is `%s`' % ('numeric' if isnum else 'array', short(shp)), c)
+                else:
+                    verdict = verdict or ('und', 'shape argument `%s` not recognised' % short(shp))
+            if verdict is None and n_checked:
+                r.ok(construct, 'validate_shape(student, shape of expected) whenever utils offers it', lib.loc(ev, any_call[0]))
+            elif verdict is None:
+                r.undecided(construct, 'no path validates the submission', ev.loc)
+            elif verdict[0] == 'bad':
+                r.violation(construct, verdict[1], lib.loc(ev, any_call[0]), expected='utils.validate_shape(%s, shape of %s)' % (S, E))
+            else:
+                r.undecided(construct, verdict[1], lib.loc(ev, any_call[0]))
         # wiring of Utils.validate_shape
         gu = idx.func(MGQ + '.get_comparer_utils')
         inner = idx.funcs.get(gu.qualname + '.<locals>._validate_shape')
